@@ -591,6 +591,10 @@ func (env *SpecEnv) selector(x *ESel) SVal {
 						if _, isArr := f.Type().Underlying().(*types.Array); isArr {
 							return SVal{V: FieldAddrV{Obj: ref, Fld: f}, T: types.NewPointer(f.Type())}
 						}
+						if _, isStruct := f.Type().Underlying().(*types.Struct); isStruct {
+							// nested struct: its address (fields are reached through it)
+							return SVal{V: FieldAddrV{Obj: ref, Fld: f}, T: types.NewPointer(f.Type())}
+						}
 						return SVal{V: ex.loadField(env.state(), ref, f), T: f.Type()}
 					}
 				}
